@@ -4,6 +4,7 @@ import (
 	"bytes"
 	"fmt"
 	"os"
+	"os/exec"
 	"path/filepath"
 	"sort"
 	"strings"
@@ -13,6 +14,7 @@ import (
 	"verif/cells"
 	"verif/genrun"
 	"verif/report"
+	"verif/spec"
 )
 
 func init() { Registry["C13"] = C13 }
@@ -283,5 +285,76 @@ func C13(run *report.Run) {
 	run.Cov["equal"] = ok
 	run.Cov["alphabet"] = fmt.Sprintf("%q", c13Alphabet)
 	run.Cov["rule"] = "state = one spec-file content (every byte string over the alphabet up to the length bound; every repository spec in as-is / CRLF / no-trailing-newline / one-line-JSON form, also after another of these forms was embedded into the same directory; long lines with one escape-needing unit at every offset) × donotedit; transition = generate, compile spec_file.go with go/types, evaluate the SpecFile constant, compare with the input"
+	c13CLI(run, env)
 	c13Served(run, env)
 }
+
+// c13CLI binds the file-based entry point (the command-line tool reads the spec file itself) to the
+// property: real documents in several physical forms, written to a file and generated with the real
+// binary; the constant in the spec_file.go it writes must equal the file byte for byte.
+func c13CLI(run *report.Run, env *Env) {
+	bin := filepath.Join(env.Scratch, "goag-cli")
+	cmd := exec.Command("go", "build", "-o", bin, "github.com/vkd/goag/cmd/goag")
+	cmd.Dir = report.VerifDir
+	if out, err := cmd.CombinedOutput(); err != nil {
+		internal("build cli: %v: %s", err, out)
+	}
+	bom := []byte{0xef, 0xbb, 0xbf}
+	docs := map[string][]byte{}
+	for n, orig := range fixtureSpecs() {
+		if n == "tests/default" || n == "tests/params" || n == "examples/petstore" {
+			docs[n] = orig
+		}
+	}
+	base, _, _ := cells.Base()
+	docs["base-json"] = base.YAML()
+	var n, okN int64
+	for _, name := range spec.SortedKeys(docs) {
+		orig := docs[name]
+		forms := map[string][]byte{
+			"asis":       orig,
+			"bom":        append(append([]byte{}, bom...), orig...),
+			"crlf":       bytes.ReplaceAll(orig, []byte("\n"), []byte("\r\n")),
+			"bom+crlf":   append(append([]byte{}, bom...), bytes.ReplaceAll(orig, []byte("\n"), []byte("\r\n"))...),
+			"notnl":      bytes.TrimRight(orig, "\n"),
+			"trailing":   append(append([]byte{}, orig...), []byte("\n\n  \n")...),
+			"blanklines": bytes.ReplaceAll(orig, []byte("\n"), []byte("\n\n")),
+		}
+		for _, fn := range spec.SortedKeys(forms) {
+			raw := forms[fn]
+			dir := filepath.Join(env.Scratch, "c13cli", fmt.Sprintf("%d", n))
+			os.MkdirAll(dir, 0o755)
+			sf := filepath.Join(dir, "openapi.yaml")
+			os.WriteFile(sf, raw, 0o644)
+			c := exec.Command(bin, "-file", sf, "-out", filepath.Join(dir, "out"), "-package", "gen", "-config", filepath.Join(dir, "none.yaml"))
+			out, err := c.CombinedOutput()
+			n++
+			if err != nil {
+				// a form the loader does not accept is not a spec file content the tool can embed
+				classesCLI(run, "cli-rejected")
+				os.RemoveAll(dir)
+				continue
+			}
+			src, rerr := os.ReadFile(filepath.Join(dir, "out", "spec_file.go"))
+			if rerr != nil {
+				run.Violate(&report.Violation{Attrs: map[string]string{"class": "cli-no-spec-file", "kind": "document", "form": fn}, State: "cli:" + name + ":" + fn, Observed: "the CLI exited 0 without writing spec_file.go: " + trunc(string(out), 200)})
+				os.RemoveAll(dir)
+				continue
+			}
+			r := genrun.JudgeSpecFile(src, raw)
+			if r.OK {
+				okN++
+			} else {
+				a := c13Shape(raw)
+				a["class"], a["kind"], a["form"], a["entry"] = r.Class, "document", fn, "cli"
+				run.Violate(&report.Violation{Attrs: a, State: "cli:" + name + ":" + fn, Input: fmt.Sprintf("%q", trunc(string(raw), 120)),
+					Observed: r.Class + ": " + trunc(r.Msg, 200) + " got=" + fmt.Sprintf("%q", trunc(r.Got, 120)), Expected: "the SpecFile constant written by the command-line tool equals the file it was given, byte for byte"})
+			}
+			os.RemoveAll(dir)
+		}
+	}
+	run.Cov["cli_spec_files"] = n
+	run.Cov["cli_spec_files_equal"] = okN
+}
+
+func classesCLI(run *report.Run, k string) { run.Count("c13cli_"+k, 1) }
